@@ -198,7 +198,7 @@ pub enum UVal {
     Str(&'static str),
 }
 
-pub const UVALUES: [(&str, UVal); 8] = [
+pub const UVALUES: [(&str, UVal); 12] = [
     ("5", UVal::Int(5)),
     ("\"abc\"", UVal::Str("abc")),
     ("-5", UVal::Int(-5)),
@@ -207,6 +207,11 @@ pub const UVALUES: [(&str, UVal); 8] = [
     ("1234", UVal::Int(1234)),
     ("\"\"", UVal::Str("")),
     ("\"abcdef\"", UVal::Str("abcdef")),
+    // fractions below one, negative ones among them (the whole part is 0 and the sign has to survive)
+    ("-.5", UVal::Quarters(-2)),
+    ("-.75", UVal::Quarters(-3)),
+    (".25", UVal::Quarters(1)),
+    ("-12.5", UVal::Quarters(-50)),
 ];
 
 pub const FORMAT_ALPHABET: [u8; 7] = [b'#', b'.', b',', b'\\', b' ', b'!', b'x'];
